@@ -18,6 +18,17 @@ def style_table_module(styles: list | None) -> str:
     if styles is None:
         styles = [{"name": "python", "single": "#", "ias": " ", "ms": "", "mm": "", "me": "", "ibm": "", "iam": ""},
                   {"name": "c", "single": "", "ias": "", "ms": "/*", "mm": "*", "me": "*/", "ibm": " ", "iam": " "}]
+    # R needs the comment syntaxes as they were when the specification was written: a style that the code under test no
+    # longer knows (or spells differently) still exists in people's files, and its terminator must still not end up in a
+    # value.  So the table is the union of the pinned styles (specs/pinned_styles.json) and the code's current ones.
+    pinned_file = os.path.join(os.path.dirname(os.path.abspath(__file__)), "..", "specs", "pinned_styles.json")
+    keys = ("name", "single", "ias", "ms", "mm", "me", "ibm", "iam")
+    if os.path.exists(pinned_file) and len(styles) > 2:
+        import json
+        seen = {tuple(s_[k] for k in keys) for s_ in styles}
+        for ps in json.load(open(pinned_file)):
+            if tuple(ps[k] for k in keys) not in seen:
+                styles = list(styles) + [dict(ps, name=ps["name"])]
     recs = []
     terms = set()
     for s in styles:
